@@ -236,7 +236,15 @@ fn one_case(ctx: &Ctx, case: u64, l: &mut Local) {
         Fmt::Json => vec![(0, segs[0].clone()), (1, segs[1].clone()), (2, segs[2].clone())],
     };
     for (seg_no, text) in &sites {
+        // (very long texts — a payload with thousands of visible placeholders — are sampled: every position
+        // within 48 characters of a border or a dot, and every `stride`-th position elsewhere)
+        let stride = (text.len() / 3000).max(1);
+        let phase = r.usize(stride);
+        let dots: Vec<usize> = text.bytes().enumerate().filter(|(_, b)| *b == b'.').map(|(i, _)| i).collect();
         for pos in 0..=text.len() {
+            if stride > 1 && pos % stride != phase && pos >= 48 && pos + 48 < text.len() && !dots.iter().any(|d| pos.abs_diff(*d) < 48) {
+                continue;
+            }
             let mut ops: Vec<CharOp> = vec![];
             if full {
                 ops.extend(alpha.iter().map(|c| CharOp::Sub(*c)));
@@ -415,6 +423,23 @@ fn one_case(ctx: &Ctx, case: u64, l: &mut Local) {
         }
     }
     structural(&mut j, "signature-extended", Some(format!("{}.{}.{}A", segs[0], segs[1], segs[2])), &fixed);
+    // whole octets put in front of / behind the signature value (zero octets, as a big-integer or
+    // "length fix-up" reader would tolerate), and the signature value repeated
+    if let Ok(raw) = crate::model::b64d(&segs[2]) {
+        for k in [1usize, 2, 3, 32, 63, 64] {
+            let front: Vec<u8> = std::iter::repeat(0u8).take(k).chain(raw.iter().copied()).collect();
+            structural(&mut j, &format!("signature-zero-octets-in-front-{k}"), Some(format!("{}.{}.{}", segs[0], segs[1], crate::model::b64e(&front))), &fixed);
+        }
+        let back: Vec<u8> = raw.iter().copied().chain(std::iter::repeat(0u8).take(1 + r.usize(3))).collect();
+        structural(&mut j, "signature-zero-octets-behind", Some(format!("{}.{}.{}", segs[0], segs[1], crate::model::b64e(&back))), &fixed);
+        structural(&mut j, "signature-twice", Some(format!("{}.{}.{}", segs[0], segs[1], crate::model::b64e(&[raw.clone(), raw.clone()].concat()))), &fixed);
+    }
+    // a whole segment emptied (a reader that falls back to a default header / payload when one is missing)
+    structural(&mut j, "header-segment-empty", Some(format!(".{}.{}", segs[1], segs[2])), &fixed);
+    structural(&mut j, "payload-segment-empty", Some(format!("{}..{}", segs[0], segs[2])), &fixed);
+    if fmt == Fmt::Compact {
+        structural(&mut j, "header-segment-missing", Some(format!("{}.{}", segs[1], segs[2])), &fixed);
+    }
     if fmt == Fmt::Compact {
         for (k, tail) in [".", ".A", "..", ".AAAA.BBBB", ".e30"].iter().enumerate() {
             structural(&mut j, &format!("fourth-segment-{k}"), Some(format!("{}{}", t.parts.jwt, tail)), &fixed);
@@ -972,6 +997,85 @@ fn one_case(ctx: &Ctx, case: u64, l: &mut Local) {
             j.l.count("fault.structural.kind.wrapped-presentation");
             j.l.distinct(crate::rng::mix(case ^ gen::hash_str(pre) ^ gen::hash_str(post).rotate_left(9)));
             j.reject("structural", &format!("presentation wrapped in {pre:?}…{post:?} ({} Compact)", alg.name()), Some(v), || json!({"pre": pre, "post": post}));
+        }
+    }
+    // ---- the same credential signed by an issuer of another algorithm family (RSA 2048 / 3072 / 4096 with
+    // PKCS#1 v1.5 and PSS, P-384, HS384 / HS512): octet-level edits of the signature value
+    if case % 8 == 5 {
+        let names: Vec<&str> = keys::EXTRA_ALGS.iter().copied().chain(keys::BIG_RSA.iter().copied()).collect();
+        let an = names[((case / 8) % names.len() as u64) as usize];
+        let ex = Resolver::Extra(an);
+        let mut h = jsonwebtoken::Header::new(keys::extra_alg(an));
+        h.typ = None;
+        if let Some(jwt) = t.parts.payload().ok().and_then(|pl| jsonwebtoken::encode(&h, &pl, &keys::extra_enc(an)).ok()) {
+            let sg = tamper::segments(&jwt).unwrap();
+            let raw = crate::model::b64d(&sg[2]).unwrap_or_default();
+            let mut p = t.parts.clone();
+            p.kb = None;
+            p.jwt = jwt.clone();
+            let ctl = p.encode(fmt, 0).map(|text| api::verify(&text, &ex, None, fmt));
+            j.l.evals += 1;
+            match ctl.as_ref().map(|v| &v.out) {
+                Some(Outcome::Ok(_)) => {
+                    j.l.count("control.other-signing-algorithms.accepted");
+                    let mut edits: Vec<(String, Vec<u8>)> = vec![];
+                    for k in [1usize, 2, 3, 32, 63, 64] {
+                        edits.push((format!("{k} zero octet(s) in front"), std::iter::repeat(0u8).take(k).chain(raw.iter().copied()).collect()));
+                    }
+                    edits.push(("a zero octet behind".into(), raw.iter().copied().chain([0u8]).collect()));
+                    edits.push(("first octet dropped".into(), raw[1.min(raw.len())..].to_vec()));
+                    edits.push(("last octet dropped".into(), raw[..raw.len().saturating_sub(1)].to_vec()));
+                    edits.push(("all zero".into(), vec![0u8; raw.len()]));
+                    edits.push(("empty".into(), vec![]));
+                    for _ in 0..4 {
+                        let mut f = raw.clone();
+                        if !f.is_empty() {
+                            let at = r.usize(f.len());
+                            f[at] ^= 1 << r.below(8);
+                        }
+                        edits.push(("one bit flipped".into(), f));
+                    }
+                    for (name, sig) in edits {
+                        if sig == raw {
+                            continue;
+                        }
+                        p.jwt = format!("{}.{}.{}", sg[0], sg[1], crate::model::b64e(&sig));
+                        let v = p.encode(fmt, 0).map(|text| api::verify(&text, &ex, None, fmt));
+                        j.l.count("fault.structural.kind.other-signing-algorithms");
+                        j.l.distinct(crate::rng::mix(case ^ gen::hash_str(&name) ^ gen::hash_str(an)));
+                        j.reject("structural", &format!("signature value with {name} ({an} {})", fmt.name()), v, || json!({"alg": an, "edit": name}));
+                    }
+                }
+                Some(other) => j.l.violate(Violation {
+                    subcheck: "control-rejected".into(),
+                    class: format!("{an} {}", fmt.name()),
+                    observed: other.panic_signature().unwrap_or_else(|| other.describe()),
+                    case,
+                    detail: json!({"alg": an}),
+                }),
+                None => {}
+            }
+        }
+    }
+    // ---- the whole presentation (either form) in a transfer encoding: base64url / base64 of the text, hex,
+    // percent-escapes throughout, the text as a JSON string
+    if let Some(whole) = t.parts.encode(fmt, 0) {
+        use base64::Engine;
+        let std_b64 = base64::engine::general_purpose::STANDARD.encode(whole.as_bytes());
+        let variants: Vec<(&str, String)> = vec![
+            ("base64url", crate::model::b64e(whole.as_bytes())),
+            ("base64url twice", crate::model::b64e(crate::model::b64e(whole.as_bytes()).as_bytes())),
+            ("base64 (padded, standard alphabet)", std_b64.clone()),
+            ("base64url (padded)", std_b64.replace('+', "-").replace('/', "_")),
+            ("hex", whole.bytes().map(|b| format!("{b:02x}")).collect()),
+            ("percent-escapes throughout", whole.bytes().map(|b| format!("%{b:02X}")).collect()),
+            ("a JSON string", Value::String(whole.clone()).to_string()),
+        ];
+        for (name, text) in variants {
+            let v = api::verify(&text, &fixed, t.kb.as_ref().map(|(a, n)| (a.as_str(), n.as_str())), fmt);
+            j.l.count("fault.structural.kind.transfer-encoded-presentation");
+            j.l.distinct(crate::rng::mix(case ^ gen::hash_str(name) ^ 0x7e57));
+            j.reject("structural", &format!("whole presentation as {name} ({} {})", alg.name(), fmt.name()), Some(v), || json!({"encoding": name}));
         }
     }
     // ---- JSON only: the flattened members are NOT intact, but an unknown member carries the intact
